@@ -3,9 +3,11 @@ module verif/h
 go 1.26
 
 require (
+	github.com/eclipse/paho.mqtt.golang v1.4.1
 	github.com/orda-io/orda/client v0.0.0-20220818033301-4a9396b77850
 	github.com/orda-io/orda/server v0.0.0-20220801082945-cf9794afb5e4
 	go.mongodb.org/mongo-driver v1.10.1
+	google.golang.org/grpc v1.49.0
 	google.golang.org/protobuf v1.28.1
 )
 
@@ -13,7 +15,6 @@ require (
 	github.com/TylerBrock/colorjson v0.0.0-20200706003622-8a50f05110d2 // indirect
 	github.com/cespare/xxhash/v2 v2.1.2 // indirect
 	github.com/dgryski/go-rendezvous v0.0.0-20200823014737-9f7001d12a5f // indirect
-	github.com/eclipse/paho.mqtt.golang v1.4.1 // indirect
 	github.com/fatih/color v1.13.0 // indirect
 	github.com/go-redis/redis/v8 v8.11.5 // indirect
 	github.com/go-redsync/redsync/v4 v4.5.1 // indirect
@@ -48,7 +49,6 @@ require (
 	golang.org/x/sys v0.0.0-20220825204002-c680a09ffe64 // indirect
 	golang.org/x/text v0.3.7 // indirect
 	google.golang.org/genproto v0.0.0-20220822174746-9e6da59bd2fc // indirect
-	google.golang.org/grpc v1.49.0 // indirect
 )
 
 replace (
